@@ -921,3 +921,67 @@ func (c *Ctx) resultAlts(fn *ssa.Function, v ssa.Value) []guardedAlt {
 	}
 	return out
 }
+
+// vCall: a call of some target function that fn performs itself or through helpers, with the
+// arguments and the reaching condition rewritten into fn's terms.
+type vCall struct {
+	site   ssa.CallInstruction // the call instruction in fn (of the target, or of the helper that leads to it)
+	inner  ssa.CallInstruction // the call of the target itself
+	origin *ssa.Function       // the function containing inner
+	argT   []string
+	cond   dnf
+	blocks []*ssa.BasicBlock // the blocks of the call chain, outermost first
+}
+
+// virtualCalls lists the calls of target made by fn directly or through repo helpers (up to
+// depth further calls), as fn would see them were the helpers written in place.
+func (c *Ctx) virtualCalls(fn, target *ssa.Function, depth int) []vCall {
+	return c.virtualCallsRec(fn, target, depth, map[*ssa.Function]bool{})
+}
+
+func (c *Ctx) virtualCallsRec(fn, target *ssa.Function, depth int, stack map[*ssa.Function]bool) []vCall {
+	pc := c.PC(fn)
+	stack[fn] = true
+	defer delete(stack, fn)
+	var out []vCall
+	for _, ci := range callsIn(fn) {
+		g := callee(ci)
+		if g == nil {
+			continue
+		}
+		in := ci.(ssa.Instruction)
+		cond := pc.canonOf(pc.At(in.Block()))
+		if cond.unknown {
+			cond = mkDNF(pc.Must(in.Block()))
+		}
+		if g == target {
+			vc := vCall{site: ci, inner: ci, origin: fn, cond: cond, blocks: []*ssa.BasicBlock{in.Block()}}
+			for _, a := range ci.Common().Args {
+				vc.argT = append(vc.argT, c.term(fn, a))
+			}
+			out = append(out, vc)
+			continue
+		}
+		if depth == 0 || !c.W.InRepo(g) || stack[g] || len(g.Blocks) == 0 || len(c.W.callsReaching(g, target, depth-1)) == 0 {
+			continue
+		}
+		for _, sub := range c.virtualCallsRec(g, target, depth-1, stack) {
+			vc := vCall{site: ci, inner: sub.inner, origin: sub.origin, blocks: append([]*ssa.BasicBlock{in.Block()}, sub.blocks...)}
+			for _, t := range sub.argT {
+				vc.argT = append(vc.argT, c.substParams(fn, ci, t))
+			}
+			sc := dnf{unknown: sub.cond.unknown}
+			for _, cj := range sub.cond.cs {
+				var n conj
+				for _, l := range cj {
+					n = append(n, normLit(l[:1]+c.substParams(fn, ci, l[1:])))
+				}
+				sort.Strings(n)
+				sc.cs = append(sc.cs, n)
+			}
+			vc.cond = andDNF(cond, sc)
+			out = append(out, vc)
+		}
+	}
+	return out
+}
